@@ -29,6 +29,7 @@ from .. import q
 from .. import x_ws as X
 from ..cfg import must_facts, canon_fact
 from ..model import AnalysisError
+from .. import x_wsnorm as NORM
 from ..mutate import mutate, remove_stmts, replace_expr, replace_stmt, parse_stmt, parse_expr
 
 TECHNIQUE = "exhaustive header-byte/opcode enumeration with constant propagation over the CFG + exception-escape lint against a frozen raise model"
@@ -156,7 +157,10 @@ def rule_size(ck, rf, hm, consts):
                     if nm == "self":
                         continue
                     views.add(env[nm] if nm in env else (X._tag_get(u.tags, nm) or "?"))
-            ok = bool(views) and all(isinstance(v, tuple) and v and v[0] == "extlen" for v in views)
+            is_ext = lambda v: isinstance(v, tuple) and v and v[0] == "extlen"
+            if any(v == "?" for v in views):
+                raise AnalysisError("_receive_frame: an operand of the max_message_size comparison has an origin the analysis does not model")
+            ok = any(is_ext(v) for v in views) and all(is_ext(v) or (isinstance(v, int) and not isinstance(v, bool)) for v in views)
             ck.ob(R, rf, node.ast, ok, "length code %d: the quantity compared with max_message_size is the decoded extended length (got %s)" % (code, sorted(map(repr, views))), construct="limit operand for code %d: %s" % (code, sorted(map(repr, views))))
         # units: what does len(<reassembly buffer>) count?  Resolved through every assignment / mutation of the field.
         kind, ev = X.field_kind(ck.repo, W, P13, X.BUF)
@@ -469,6 +473,7 @@ def rule_abort_stops(ck, rf, hm, loop, consts):
 
 
 def run(ck):
+    ck.repo = NORM.normalize(ck.repo, W, NORM.KEEP_WS)  # aliases, temporaries, 1-tuple unpacks, single-use private helpers (vt/x_wsnorm.py)
     ck.rule("C15.abort-table", "every RFC 6455 / permessage-deflate header violation (reserved bits, RSV1 on control/continuation frames, control frames >125 bytes or fragmented, continuation without start, data frame inside a fragmented message, unknown opcode) ends in _abort() with nothing dispatched or buffered, for every concrete header byte of the class")
     ck.rule("C15.size-limit", "messages above max_message_size are aborted before their payload is read: the compared quantity is the decoded frame length plus the buffered *bytes* (units resolved through every assignment/mutation of the buffer field and evaluated on concrete buffer models), limit itself accepted; the inflater is bounded by the same limit on every path and overflow becomes an abort")
     ck.rule("C15.utf8", "a text message is delivered only as the strict UTF-8 decoding of its payload; a decoding error aborts without delivery")
